@@ -45,9 +45,17 @@ def main():
         params = json.load(f)
     mod = importlib.import_module(modname)
     obs = {}
+    chaos = None
+    if os.environ.get('VERIF_CHAOS_SEED'):
+        # schedule perturbation in the host's pool threads (vmon/chaos.py)
+        from vmon import chaos
+        if not chaos.install(int(os.environ['VERIF_CHAOS_SEED'])):
+            chaos = None
 
     def save(completed):
         obs['completed'] = completed
+        if chaos is not None:
+            obs['_chaos'] = chaos.summary()
         tmp = ofile + '.tmp'
         with open(tmp, 'w') as f:
             json.dump(obs, f, default=repr)
